@@ -410,12 +410,8 @@ func c01Trial(c *vlib.Ctx, root string, idx int, crashes []c01Crash) {
 		if crash.Kind == "point" {
 			env = append(env, fmt.Sprintf("VERIF_POINTS=%s=kill@%d", crash.Point, crash.Hit), "VERIF_POINTS_LOG="+killLog)
 		}
-		if err := p.Start(l3.StartOpts{Env: env}); err != nil {
-			c.Inconclusive("C01 start: " + err.Error())
-			return
-		}
 		startupKill := false
-		if err := p.WaitHealthy(60 * time.Second); err != nil {
+		if err := p.StartHealthy(l3.StartOpts{Env: env}, 60*time.Second); err != nil {
 			if b, rerr := os.ReadFile(killLog); rerr == nil && crash.Kind == "point" && p.Exited() {
 				// the armed point fired while the process was still starting (schema
 				// migration, first checkpoint): a crash point like any other
@@ -457,11 +453,7 @@ func c01Trial(c *vlib.Ctx, root string, idx int, crashes []c01Crash) {
 		led.mu.Unlock()
 
 		// restart WITHOUT armed points on the same database and audit
-		if err := p.Start(l3.StartOpts{Env: []string{"VERIF_SQLITE_CHECKPOINT_INTERVAL=40ms"}}); err != nil {
-			c.Inconclusive("C01 restart: " + err.Error())
-			return
-		}
-		if err := p.WaitHealthy(60 * time.Second); err != nil {
+		if err := p.StartHealthy(l3.StartOpts{Env: []string{"VERIF_SQLITE_CHECKPOINT_INTERVAL=40ms"}}, 60*time.Second); err != nil {
 			if p.Exited() {
 				c.Violation(vlib.Signature{"class": "restart_failed", "crash": crash.Kind}, fmt.Sprintf("[%s] the process does not come up on the database left by crash %s: %v", label, crash, err), nil)
 			} else {
@@ -478,6 +470,24 @@ func c01Trial(c *vlib.Ctx, root string, idx int, crashes []c01Crash) {
 		}
 		c01Audit(c, label, crash, led, msgs)
 		c01Drain(c, p, label, crash, led, msgs)
+		if idx < 3 {
+			led.mu.Lock()
+			acked, open := 0, 0
+			for _, m := range led.msgs {
+				switch m.Enq {
+				case "acked":
+					acked++
+				case "open":
+					open++
+				}
+			}
+			led.mu.Unlock()
+			byState := map[string]int{}
+			for _, m := range msgs {
+				byState[m.State]++
+			}
+			c.Sample(map[string]any{"trial": label, "generation": gen, "crash": crash.String(), "ledger_acknowledged_enqueues": acked, "ledger_open_enqueues": open, "rows_after_restart_by_state": byState})
+		}
 		c.Count("evaluations", 1)
 		c.Count("restart_audits", 1)
 		c.Count("messages_audited", int64(len(msgs)))
